@@ -155,7 +155,21 @@ def worker(mod_json, wseed, nvalues, cfg_kw):
                 if acc.evaluations % 97 == 1:
                     acc.sample({"type": "%s ::= %s" % (tname, ttext[:300]), "value": val_repr(v, 120), "chain": chain,
                                 "der": refder.hex()[:120]})
-            f = pipeline.run_given(strat, body, nvalues, wseed * 1000 + ti)
+            f = None
+            if mod.name.startswith("Cat"):
+                # catalogue types: every boundary value through the two longest chains before the random draws
+                for bv in gen.boundary_values(mod, t):
+                    for chain_ in (["uper", "oer", "xer", "der"], ["der", "cxer", "oer", "uper"]):
+                        acc.extra["catalogue_boundary_cases"] += 1
+                        try:
+                            body((bv, chain_))
+                        except Fail as e:
+                            f = e
+                            break
+                    if f is not None:
+                        break
+            if f is None:
+                f = pipeline.run_given(strat, body, nvalues, wseed * 1000 + ti)
             if f is not None:
                 if f.key == "flaky":
                     acc.notes.append(f.summary[:500])
@@ -235,6 +249,7 @@ def main(argv):
     from . import runner
     return runner.run_module_check(PID, "exploration", RULE, worker, replay_case, argv,
                                    n_modules=(16, 300), n_values=(40, 120),
+                                   extra_modules=[m for m in gen.catalogue() if m.name in ("CatBig", "CatChoice", "CatOpt")],
                                    assumptions=["reference DER encoder (vf/ref_ber.py) is the value injection path",
                                                 "value generators cover the documented native-type ranges only "
                                                 "(64-bit INTEGER without -fwide-types)"])
